@@ -67,6 +67,24 @@ func init() {
 		deepCase{"dag-crew-machine-emits-array", "crew", "ecmascript", dagArr + ` _.out({to: "nobody", deep: o}); return _.bindings;`})
 }
 
+// Map and Set: exported as lists (a Map as a list of pairs).  An object that contains itself
+// by way of a Map, or nesting that runs through Maps, is as impossible to write out as the
+// plain kind.  A Map or Set that contains ITSELF is another matter: see known_findings.txt.
+var viaMapCycle = `var o = {}; var m = new Map(); m.set("a", o); o.m = m;`
+var viaMapDeep = `var o = {}; for (var i = 0; i < 20000; i++) { var m = new Map(); m.set("k", o); o = {m: m}; }`
+
+func init() {
+	deepCases = append(deepCases,
+		deepCase{"cycle-through-a-map-returned", "action", "ecmascript", viaMapCycle + ` return {o: o};`},
+		deepCase{"cycle-through-a-map-emitted", "action", "ecmascript", viaMapCycle + ` _.out({o: o}); return _.bindings;`},
+		deepCase{"nesting-through-maps-returned", "action", "ecmascript", viaMapDeep + ` return {o: o};`},
+		deepCase{"nesting-through-maps-emitted", "action", "ecmascript", viaMapDeep + ` _.out(o); return _.bindings;`},
+		deepCase{"nesting-through-maps-crew-machine-returns", "crew", "ecmascript", viaMapDeep + ` var bs = _.bindings; bs.deep = o; return bs;`},
+		deepCase{"map-that-contains-itself-returned", "action", "ecmascript", `var m = new Map(); m.set("a", m); return {m: m};`},
+		deepCase{"set-that-contains-itself-returned", "action", "ecmascript", `var s = new Set(); s.add(s); return {s: s};`},
+		deepCase{"map-that-contains-itself-emitted", "action", "ecmascript", `var m = new Map(); m.set("a", m); _.out({m: m}); return _.bindings;`})
+}
+
 // boundary cases: nesting around the depth a JSON decoder accepts (10000).  Whatever is
 // accepted must survive being written and read back inside the envelopes hosts use.
 func init() {
@@ -166,9 +184,25 @@ func DeepCase(name string) int {
 					out.ErrText = short(s)
 				}
 			}
-			// what a host does next with the state it was given: store it
-			if _, err := json.Marshal(w.To()); err != nil {
+			// what a host does next with the state it was given: store it (and, one day,
+			// read it back)
+			if js, err := json.Marshal(w.To()); err != nil {
 				out.Err = "state cannot be stored: " + short(err.Error())
+			} else {
+				var back interface{}
+				if uerr := json.Unmarshal(js, &back); uerr != nil {
+					out.Err = "what was stored cannot be read back: " + short(uerr.Error())
+				}
+			}
+			var emitted []interface{}
+			w.DoEmitted(func(x interface{}) error { emitted = append(emitted, x); return nil })
+			if js, err := json.Marshal(emitted); err != nil {
+				out.Err = "emitted messages cannot be sent: " + short(err.Error())
+			} else {
+				var back interface{}
+				if uerr := json.Unmarshal(js, &back); uerr != nil {
+					out.Err = "what was emitted cannot be read by its receiver: " + short(uerr.Error())
+				}
 			}
 		}
 	case "crew":
